@@ -16,7 +16,17 @@ for d in seeded/*/; do
   res=$(tools/mutant.sh $d/patch.diff $p $tier 2>&1)
   rc=$(echo "$res" | grep -o 'exit=[0-9]*' | tail -1 | cut -d= -f2)
   sig=$(echo "$res" | grep -o 'minimising the first: [^:]*' | head -1 | sed 's/minimising the first: //')
-  echo "$n $p exit=$rc $sig"
-  echo "| $n | $p | $rc | $sig |" >> $out.tmp
+  note=""
+  if [ "$rc" != "1" ] && [ -f $d/meta.json ]; then
+    # caught by the check of a neighbouring property?
+    for q in $(python3 -c "import json,sys; print(' '.join(c['property'] for c in json.load(open('$d/meta.json'))['checks_run'] if c['property']!='$p' and c['exit']==1))" 2>/dev/null); do
+      res2=$(tools/mutant.sh $d/patch.diff $q $tier 2>&1)
+      rc2=$(echo "$res2" | grep -o 'exit=[0-9]*' | tail -1 | cut -d= -f2)
+      sig2=$(echo "$res2" | grep -o 'minimising the first: [^:]*' | head -1 | sed 's/minimising the first: //')
+      note="$note; check $q exit=$rc2 $sig2"
+    done
+  fi
+  echo "$n $p exit=$rc $sig$note"
+  echo "| $n | $p | $rc | $sig$note |" >> $out.tmp
 done
 mv $out.tmp $out
